@@ -418,9 +418,29 @@ class Program:
 
     def is_memoised(self, f: FuncInfo) -> str | None:
         for d in f.decorators:
-            if d in MEMO_DECORATORS:
+            if d in MEMO_DECORATORS or self._memo_wrapper(d):
                 return d
         return None
+
+    def _memo_wrapper(self, name: str | None) -> bool:
+        """A package-level `def cache(func): return lru_cache(maxsize=None)(func)` (or `return functools.cache(func)`)
+        is the stdlib memoiser under another name."""
+        if not name or not name.startswith("typelib."):
+            return False
+        mn, _, fn = name.rpartition(".")
+        mod = self.modules.get(mn)
+        if mod is None:
+            return False
+        for n in ast.walk(mod.tree):
+            if isinstance(n, ast.FunctionDef) and n.name == fn and len(n.args.args) == 1 and not n.decorator_list:
+                body = [st for st in n.body if not (isinstance(st, ast.Expr) and isinstance(st.value, ast.Constant))]
+                if len(body) == 1 and isinstance(body[0], ast.Return) and isinstance(body[0].value, ast.Call):
+                    c = body[0].value
+                    arg_ok = len(c.args) == 1 and isinstance(c.args[0], ast.Name) and c.args[0].id == n.args.args[0].arg and not c.keywords
+                    inner = c.func.func if isinstance(c.func, ast.Call) else c.func
+                    if arg_ok and self.resolve_expr_name(mod, inner) in MEMO_DECORATORS:
+                        return True
+        return False
 
     def memoised_functions(self) -> dict[str, str]:
         """qualified function name -> memo decorator, including `name = compat.cache(func)` wrappers."""
@@ -431,7 +451,7 @@ class Program:
                 out[f.qualname] = d
         for m in self.modules.values():
             for nm, v in m.assigns.items():
-                if isinstance(v, ast.Call) and self.resolve_expr_name(m, v.func) in MEMO_DECORATORS and v.args:
+                if isinstance(v, ast.Call) and (self.resolve_expr_name(m, v.func) in MEMO_DECORATORS or self._memo_wrapper(self.resolve_expr_name(m, v.func))) and v.args:
                     target = self.resolve_expr_name(m, v.args[0])
                     if target:
                         out[f"{m.name}.{nm}"] = f"{self.resolve_expr_name(m, v.func)}({target})"
